@@ -153,6 +153,20 @@ PROPS['C19'] = {
     'level_note': 'Level other (partial). Trusted: q-gram iterator stub contract, HashMap stub, Verus/Z3.',
 }
 
+PROPS['C06'] = {
+    'level': 'other',
+    'units': ['C06/fmd'],
+    'kani': [],
+    'oracle': 'C06',
+    'decided': ['FMDIndex::backward_ext: the returned bi-interval is exactly the bi-interval recurrence (k\' = C[a] + Occ(k-1, a); s\' = Occ(k+s-1, a) - Occ(k-1, a); l\' = l + number of interval rows whose symbol precedes a in the complement order $TGCNAtgcna), no arithmetic failure, match_size + 1',
+                'forward_ext == backward_ext of the swapped interval with the complemented symbol, swapped back', 'init_interval_with, BiInterval::{forward, revcomp, swapped}'],
+    'undecided': ['smems / all_smems (supermaximality over two sweeps with Vec swaps)', 'the step from the recurrence to occurrence sets on a reverse-complement-closed text (Li 2012 bi-interval theorem: assumed, mathematics not code)',
+                  'init_interval, From<FMIndex> (alphabet check)'],
+    'trusted': ['abstract FM index (occ/less with the counting laws C04 proves of the real tables: bounds, monotone, 1-Lipschitz)', 'dna::complement stub (table proved in C20)'],
+    'level_text': 'Verus proves the real extension step of the FMD index against the bi-interval recurrence over an abstract FM index whose laws are those C04 proves of the real tables; SMEM enumeration is not decided.',
+    'level_note': 'Level other (partial): extension step only. Trusted: abstract FM index laws, complement stub, Verus/Z3.',
+}
+
 NOT_APPLICABLE = {
     'C10': 'Myers traceback lives in impl_myers! macro bodies and generic handler traits over iterator adapter chains (rev().chain(cycle())): outside Verus extraction (macros, adapters) and outside Kani\'s tractable loop-free fragment; no contract within reach decides any clause (DESIGN.md §4 C10).',
     'C11': 'FASTA/FASTQ parsing is String-based (read_line, trim_end, splitn(char::is_whitespace), write!): Verus has no str byte reasoning or specs for these, Kani explodes on String/UTF-8/fmt (DESIGN.md §4 C11).',
